@@ -41,8 +41,9 @@ VARIABLES W,        \* beam width of this behaviour
           P,        \* 1..T -> frame distribution
           t,        \* frames consumed
           beam,     \* prefix -> <<nb, b>> numerators (paths ending in a label / in blank)
+          prevbeam, \* the beam before the last Frame (history variable, exported for single-step replay)
           pruned    \* has any positive-mass candidate been dropped so far?
-vars == <<W, lmv, P, t, beam, pruned>>
+vars == <<W, lmv, P, t, beam, prevbeam, pruned>>
 
 \* the language model: next-label weights depend on the WHOLE prefix
 RECURSIVE Code(_)
@@ -70,6 +71,7 @@ Init == /\ W \in Ws
         /\ P \in [1..T -> Dists]
         /\ t = 0
         /\ beam = (<<>> :> <<0, 1>>)
+        /\ prevbeam = (<<>> :> <<0, 1>>)
         /\ pruned = FALSE
 
 Cands(bm) == DOMAIN bm \cup {Append(y, v) : y \in DOMAIN bm, v \in 1..V}
@@ -100,6 +102,7 @@ Frame ==
           /\ beam' = [z \in must \cup X |-> full[z]]
           /\ pruned' = (pruned \/ (must \cup X) # pos)
   /\ t' = t + 1
+  /\ prevbeam' = beam
   /\ UNCHANGED <<P, lmv, W>>
 
 Next == Frame
@@ -142,9 +145,17 @@ MassConserved == (~pruned /\ Mode = "none") =>
 (* export: every terminal beam (one per tie resolution)                    *)
 (***************************************************************************)
 Emit(rec) == PrintT(<<"VFJ", ToJson(rec)>>)
+\* one Frame transition, for the single-step replay of ctc_prefix_search_advance
+ExportStep ==
+  t > 0 =>
+    LET ps == SetToSeq(DOMAIN prevbeam)
+        ys == SetToSeq(DOMAIN beam)
+    IN Emit([kind |-> "step", p |-> P[t], lmv |-> lmv, W |-> W, t |-> t, mode |-> Mode,
+             prev |-> [i \in 1..Len(ps) |-> [y |-> ps[i], nb |-> prevbeam[ps[i]][1], b |-> prevbeam[ps[i]][2]]],
+             beam |-> [i \in 1..Len(ys) |-> [y |-> ys[i], nb |-> beam[ys[i]][1], b |-> beam[ys[i]][2]]]])
 Export ==
   t = T =>
     LET ys == SetToSeq(DOMAIN beam)
-    IN Emit([P |-> P, lmv |-> lmv, W |-> W, T |-> T, mode |-> Mode, pruned |-> pruned,
+    IN Emit([kind |-> "final", P |-> P, lmv |-> lmv, W |-> W, T |-> T, mode |-> Mode, pruned |-> pruned,
              beam |-> [i \in 1..Len(ys) |-> [y |-> ys[i], nb |-> beam[ys[i]][1], b |-> beam[ys[i]][2]]]])
 =============================================================================
